@@ -1,0 +1,31 @@
+//go:build verif
+
+package hotrestart
+
+import (
+	"net"
+	"syscall"
+)
+
+// VerifSetKill replaces the function used to signal the own process on a terminate request; nil restores it.
+func VerifSetKill(f func(pid int, sig syscall.Signal) error) {
+	if f == nil {
+		kill = syscall.Kill
+		return
+	}
+	kill = f
+}
+
+// VerifSendFrame sends one frame with sendMessage.
+func VerifSendFrame(conn *net.UnixConn, typ uint8, data []byte) error {
+	return sendMessage(conn, &message{Type: messageType(typ), Len: uint16(len(data)), Data: data})
+}
+
+// VerifReadFrame receives one frame with readMessage.
+func VerifReadFrame(conn *net.UnixConn) (typ uint8, length uint16, data []byte, err error) {
+	msg, err := readMessage(conn)
+	if err != nil {
+		return 0, 0, nil, err
+	}
+	return uint8(msg.Type), msg.Len, msg.Data, nil
+}
